@@ -110,6 +110,14 @@ def evaluate(m, plain, pos, err, mark='LATEXXXERROR'):
             if not ok:
                 v.c04.append({'detached_flow_separator': plain[prev_end:first], 'positions': pos[prev_end:first],
                               'span': [flo + 1, fhi]})
+        # blanks inside the text of one generating construct map into its span, too
+        for ai, l in located:
+            a = f[ai]
+            if a[0] == 'g':
+                for i in range(l[0], l[1]):
+                    if not (a[2] + 1 <= pos[i] <= a[3]):
+                        v.c04.append({'inside_generated_text': a[1], 'span': [a[2] + 1, a[3]], 'actual': pos[i], 'plain_index': i})
+                        break
         # copied atoms with inner blanks (verbatim material): the inner part is copied verbatim
         for ai, l in located:
             a = f[ai]
